@@ -105,7 +105,7 @@ func main() {
 			if opts.corpus != "" {
 				for _, c := range readCases(opts.corpus + "/" + stream + ".tsv") {
 					c.Tag("corpus")
-					ex(NewRNG(idSeed(c.ID)), c)
+					runExec(ex, NewRNG(idSeed(c.ID)), c)
 					s.Emit(c)
 				}
 			}
@@ -116,7 +116,7 @@ func main() {
 				// a panic in a goroutine of the code under test kills this process: leave the case behind
 				c.SetInt("index", i)
 				os.WriteFile(opts.out+".pending", []byte(c.Line()+"\n"), 0644)
-				ex(NewRNG(idSeed(id)), c)
+				runExec(ex, NewRNG(idSeed(id)), c)
 				s.Emit(c)
 				s.w.Flush()
 			}
@@ -142,7 +142,7 @@ func main() {
 				fmt.Fprintln(os.Stderr, "no exec for", c.Prop)
 				os.Exit(2)
 			}
-			ex(NewRNG(idSeed(c.ID)), c)
+			runExec(ex, NewRNG(idSeed(c.ID)), c)
 			s.Emit(c)
 		}
 		s.Close()
@@ -171,7 +171,7 @@ func stillFails(c *Case, drv string) bool {
 	if !ok {
 		return false
 	}
-	ex(NewRNG(idSeed(c.ID)), c)
+	runExec(ex, NewRNG(idSeed(c.ID)), c)
 	cmd := exec.Command(drv)
 	cmd.Stdin = strings.NewReader(c.Line() + "\n")
 	out, err := cmd.Output()
